@@ -33,6 +33,7 @@ structure PState where
   adepth   : SnapInt               -- atomic_depth
   posHist  : List Nat              -- _pos_history, head = innermost
   tagStack : List String           -- head = top
+  tagHist : List (List String) := []   -- `_tag_history`: the tag stack at each open checkpoint
   negDepth : Nat
   suppress : Bool
   fpos     : Int                   -- furthest_pos
@@ -51,13 +52,14 @@ def init (startPos : Nat) : PState :=
 /-- `ParserState.checkpoint` -/
 def checkpoint (c : PState) : PState :=
   { c with ustack := c.ustack.snapshot, rstack := c.rstack.snapshot,
-           adepth := c.adepth.snapshot, posHist := c.pos :: c.posHist }
+           adepth := c.adepth.snapshot, posHist := c.pos :: c.posHist,
+           tagHist := c.tagStack :: c.tagHist }
 
 /-- `ParserState.ok`.  `_pos_history.pop()` on an empty list raises `IndexError` in Python;
     `okRaises` says when. -/
 def ok (c : PState) : PState :=
   { c with ustack := c.ustack.dropSnap, rstack := c.rstack.dropSnap,
-           adepth := c.adepth.drop, posHist := c.posHist.tail }
+           adepth := c.adepth.drop, posHist := c.posHist.tail, tagHist := c.tagHist.tail }
 
 def okRaises (c : PState) : Bool := c.posHist.isEmpty
 
@@ -66,7 +68,8 @@ def okRaises (c : PState) : Bool := c.posHist.isEmpty
 def restore (c : PState) : PState :=
   { c with ustack := c.ustack.restore, rstack := c.rstack.restore,
            adepth := c.adepth.restore,
-           pos := c.posHist.headD c.pos, posHist := c.posHist.tail }
+           pos := c.posHist.headD c.pos, posHist := c.posHist.tail,
+           tagStack := c.tagHist.headD c.tagStack, tagHist := c.tagHist.tail }
 
 def restoreRaises (c : PState) : Bool := c.posHist.isEmpty
 
